@@ -380,6 +380,15 @@ theorem update_context_restores_values (c : Cfg) (f : Nat) (kvs : List (Nat × I
   | ok => simpa using this
   | raised e => simpa using this
 
+/-- **C04 ("on an object").**  The dispatcher state is per object: statements run on *another* object
+(`other k`: a second instance, whose callbacks never reach back) involve nothing of this one — in the model
+by construction (the driver replays them on a second, independent world), in the library checked by the
+correspondence: the second instance must behave as that independent world says while this object's batch is
+open, its callbacks are running, its flush is in progress. -/
+theorem other_object_is_independent (c : Cfg) (f : Nat) (k : Nat) (w : World) :
+    (run c (f + 1) (.stmt (.other k)) w).1 = .ok ∧ (run c (f + 1) (.stmt (.other k)) w).2.1 = w := by
+  simp [run]
+
 /-! ### Non-vacuity -/
 
 def c04Cfg : Cfg := { bounds := [(none, none), (none, none)], bodies := [] }
